@@ -32,6 +32,11 @@ CLAIMED = {
         note=PROOF_NOTE + "globset matching is abstract (file names chosen so that the pattern's verdict is known); per-file outcomes are observed by single-file runs of the same binary.",
         technique="Lean 4 theorems over the exit/count model (C19_exit by omega, C19_totals, C19_exclude) + CLI correspondence runs",
         design="§4 C19"),
+    "C20": dict(
+        text="Machine-checked proof that the location scan (byte offset -> line/column) returns the specified line and column on every character-boundary offset and fails exactly on the others (C20_location, C20_location_fails), that on a well-formed range all five styles render the same row and none fails (C20_same, C20_no_crash), and that a range ending inside a multi-byte character crashes exactly the styles that look up the end position (C20_crash_split). Tied to the binary by parsing all five styles' output on generated inputs and recomputing every json offset/line/column from the source.",
+        note=PROOF_NOTE + "codespan's renderer is modelled only through the header row; luacheck continuation rows are checked for shape (column 1), not content.",
+        technique="Lean 4 theorems over a scan model of codespan's location lookup and the per-style projection + five-style CLI correspondence",
+        design="§4 C20"),
 }
 
 ALL = [f"C{i:02d}" for i in range(1, 21)]
